@@ -176,7 +176,18 @@ def build(tier="quick", seed=0):
 
             def judge(p):
                 if p.kind == "return":
-                    return False, f"definition accepted without passing the exec gate: {p.value!r}"
+                    # a fully concrete definition on this path (e.g. every schema field was skipped): the interpreter ran exec() itself; validate that text
+                    ev = [e for e in p.events if e[0] == "exec" and isinstance(e[1], str)]
+                    if not ev:
+                        return False, f"definition accepted without passing the exec gate: {p.value!r}"
+                    text = ev[-1][1]
+                    try:
+                        slots = [x for x in ast.literal_eval([n.value for n in ast.walk(ast.parse(text)) if isinstance(n, ast.Assign) and ast.unparse(n.targets[0]) == "__slots__"][0]) if x not in RESERVED]
+                    except Exception:
+                        slots = []
+                    complaints = validate_generated_source(text, None, slots)
+                    n_exec[0] += 1
+                    return (not complaints), f"generated source violates the template allow-list: {complaints[:3]}"
                 if not (isinstance(p.value, ExecReached)):
                     e = p.value
                     is_exc = isinstance(e, Exception) or isinstance(e, PObj) and e.cls.is_subclass_of(Exception)
